@@ -400,6 +400,15 @@ theorem c04_unguarded_debt_division_raises_witness :
     console and that the translator reads `print(...)` as a no-op. -/
 theorem c04_console_is_best_effort_table : Gen.Metabolism.consoleFailuresEscape = false := by decide
 
+/-- **Quantities beyond the float range cannot interrupt an operation** (Python ints are unbounded, the fill level of
+    `_update_state` and the interest of `apply_debt_interest` are float computations): evaluated on the real class on every
+    run — stores with a budget / NADH reserve / debt limit of 10^310, quotients debt/capacity and current/capacity beyond
+    2^1024, a debt no float can hold, through consume, regenerate, dormancy, interest, convert, transfer, reset — no call
+    raises (`Operon.Gen.Metabolism.floatRangeFailuresEscape`; fixed defect C04-float-range-overflow-after-booking).  A
+    complete evaluation of a finite script, not a proof about floats; it is what justifies that the model's true
+    divisions raise only on a zero denominator (`pyDiv`) and that its interest is exact integer arithmetic. -/
+theorem c04_float_range_is_handled_table : Gen.Metabolism.floatRangeFailuresEscape = false := by decide
+
 /-! ### Non-vacuity: concrete stores and histories meeting the hypotheses -/
 
 /-- a classifier to compute with -/
